@@ -55,3 +55,7 @@ pub assume_specification<T> [Option::<T>::or] (a: Option<T>, b: Option<T>) -> (r
 broadcast proof fn b_push_as_add(s: Seq<Seq<char>>, x: Seq<char>)
     ensures #[trigger] s.push(x) == s + seq![x]
 { assert(s.push(x) =~= s + seq![x]); }
+broadcast proof fn b_strs_one(v: Seq<&String>)
+    requires v.len() == 1
+    ensures #[trigger] jsonwebtoken::ref_strings(v) == seq![v[0]@]
+{ assert(jsonwebtoken::ref_strings(v) =~= seq![v[0]@]); }
